@@ -94,7 +94,10 @@ def _update_stats_and_precondition(
     assert options.shampoo_options
     return shampoo.apply(options.shampoo_options)
   if options.second_order_type == SecondOrderType.SKETCHY:
-    assert options.sketchy_options
+    if not options.sketchy_options:
+      raise ValueError(
+          'second_order_type SKETCHY requires sketchy_options to be set'
+      )
     return sketchy.apply(options.sketchy_options)
   else:
     raise ValueError(
